@@ -1,7 +1,15 @@
 """Canonical forms shared by the implementation-side dumps (must match Driver/Util.lean)."""
+import logging
 import struct
+import warnings
 
 import sqlite_dissect.exception as sde
+
+_lg = logging.getLogger("sqlite_dissect")
+_lg.setLevel(logging.CRITICAL + 1)
+_lg.addHandler(logging.NullHandler())
+_lg.propagate = False
+warnings.filterwarnings("ignore")
 
 
 def classify(exc) -> str:
